@@ -82,7 +82,11 @@ def run_check(pid, tier, seed, workers=None, only=None, extra_env=None, quiet=Fa
         if only is not None:
             cmd += [json.dumps([only["stream"], only["case"]])]
         lf = open(os.path.join(work, f"w{sh}.log"), "w")
-        procs.append((sh, out, subprocess.Popen(cmd, cwd=VERIF, env=env, stdout=lf, stderr=subprocess.STDOUT), lf))
+        wenv = env
+        every = meta.get("debug_shards", {}).get(tier)
+        if every and sh % every == 1:
+            wenv = dict(env, SYMMRAY_DEBUG="1")
+        procs.append((sh, out, subprocess.Popen(cmd, cwd=VERIF, env=wenv, stdout=lf, stderr=subprocess.STDOUT), lf))
     reports = []
     dead = []
     watchdog = wall * 2 + 120
